@@ -91,6 +91,16 @@ def variant_of_source(repo):
     v["v_sl_guard"] = _choose("Scheduler::SleepPreemptive", sl, [
         (r"Sleep\(ns\); if \(auto it = _sleep_list\.find\(ns\); it != _sleep_list\.end\(\) && it->second\.Empty\(\)\) \{ _sleep_list\.erase\(it\); \} \}$", True),
         (r"if \(_time <= ns\) \{ auto it = _sleep_list\.find\(ns\); YACLIB_DEBUG\(it == _sleep_list\.end\(\), \"[^\"]*\"\); if \(it->second\.Empty\(\)\) \{ _sleep_list\.erase\(ns\); \} \} \}$", False)])
+    tl = re.sub(r"\s+", " ", rd("include/yaclib/fault/detail/fiber/thread_local_proxy.hpp"))
+    tlc = re.sub(r"\s+", " ", rd("src/fault/fiber/thread_local_proxy.cpp"))
+    if ("class ThreadLocalPtrProxy final { inline static std::uint64_t sNextFreeIndex = 0;" in tl
+            and tl.count("_i(sNextFreeIndex++)") == 4 and "NextFreeIndex()" not in tl):
+        v["tl_one_counter"] = False
+    elif ("sNextFreeIndex" not in tl and tl.count("_i(NextFreeIndex())") == 4 and
+          "std::uint64_t NextFreeIndex() noexcept { static std::uint64_t sNextFreeIndex = 0; return sNextFreeIndex++; }" in tlc):
+        v["tl_one_counter"] = True
+    else:
+        raise Unrecognised("ThreadLocalPtrProxy numbers its instances in a way the translator does not know")
     # the functions that carry no flag must be exactly what FiberSync.v transcribes
     mx = rd("src/fault/fiber/mutex.cpp")
     fixed = [
@@ -118,7 +128,9 @@ def write_gen(v):
             "   parameterised places of the fiber lock sources currently has (false = pinned, true = repaired). *)\n"
             "From YV Require Import model.FiberSync.\n\n"
             "Definition source_variant : variant :=\n  {| " +
-            ";\n     ".join("%s := %s" % (k, "true" if v[k] else "false") for k in FLAGS) + " |}.\n")
+            ";\n     ".join("%s := %s" % (k, "true" if v[k] else "false") for k in FLAGS) + " |}.\n\n"
+            "(* ThreadLocalPtrProxy instances are numbered by one counter (true) or one per pointee type (false) *)\n"
+            "Definition source_tl_one_counter : bool := %s.\n" % ("true" if v["tl_one_counter"] else "false"))
     os.makedirs(os.path.dirname(GEN), exist_ok=True)
     old = open(GEN).read() if os.path.exists(GEN) else ""
     if old != text:
@@ -219,7 +231,7 @@ def scenario_sets(tier, seed):
     ex += ["cv/%s|%s" % (a, b) for a in progs("WuNAn", 2, False) if len(a) == 2 for b in "WwuxNAn"
            if cv_ok((a, b)) and any(c in a + b for c in "Wwxu") and any(c in a + b for c in "NAn")]
     ex += ["cv/W|n|N", "cv/W|W|A"]
-    ex += ["tls/0pYp|1pYp4q", "tls/pY0Yp|qY5Yq|p1p", "tls/04pq|15pq|pq"]
+    ex += ["tls/0pYp|1pYp4q", "tls/pY0Yp|qY5Yq|p1p", "tls/04pq|15pq|pq", "tls/08pr|19pr", "tls/0Y8pYr|r9Yp"]
     ex += ["thread/J(S)J()YD(Y)S", "thread/D(S)D(Y)Y", "thread/J(J(Y)D(S))Y", "thread/D(J(S))J(Y)S", "thread/D(Y)D(Y)J(Y)"]
     ex += ["mutex/LS|L", "timed_mutex/L(S)|F|G", "cv/WS|SN"]
     sets.append(("exhaustive: 2 fibers x (<=2,<=1) blocks of every lock class, 2 fibers x <=2 condvar operations, thread and "
@@ -329,6 +341,9 @@ def map_trace(scenario, trace):
     machine = MACHINE.get(cls)
     evs, results, jn, joins, tl, reads = [], [], [], [], [], []
     cjn, ctl = [], []
+    slots = [0, 1, 2]
+    seen_slots = None
+    VAR = {"a": 0, "b": 1, "c": 2}
     pending = {}      # fiber -> (op, arg) announced, not started
     yielded = set()
     last_op = {}      # fiber -> index in evs of its last started operation (to attach picks)
@@ -403,13 +418,18 @@ def map_trace(scenario, trace):
             elif w[0] == "exit":
                 jn.append("Jn.EExit %d" % f)
                 cjn.append("O %d 2 0 0" % f)
-            elif w[0] in ("seta", "setb"):
-                tl.append("Tl.ESet %d %d %d" % (f, 0 if w[0] == "seta" else 1, int(w[1])))
-                ctl.append("O %d 1 %d %d" % (f, 0 if w[0] == "seta" else 1, int(w[1])))
-            elif w[0] in ("geta", "getb"):
-                tl.append("Tl.EGet %d %d" % (f, 0 if w[0] == "geta" else 1))
-                ctl.append("O %d 2 %d 0" % (f, 0 if w[0] == "geta" else 1))
-                reads.append((f, 0 if w[0] == "geta" else 1, int(w[1])))
+            elif w[0] == "slots":
+                slots = [int(x) for x in w[1:4]]
+                seen_slots = tuple(slots)
+            elif w[0] in ("seta", "setb", "setc"):
+                x = slots[VAR[w[0][3]]]
+                tl.append("Tl.ESet %d %d %d" % (f, x, int(w[1])))
+                ctl.append("O %d 1 %d %d" % (f, x, int(w[1])))
+            elif w[0] in ("geta", "getb", "getc"):
+                x = slots[VAR[w[0][3]]]
+                tl.append("Tl.EGet %d %d" % (f, x))
+                ctl.append("O %d 2 %d 0" % (f, x))
+                reads.append((f, x, int(w[1])))
             else:
                 raise ValueError("unknown harness event " + tok)
         elif m.group(10):
@@ -424,7 +444,7 @@ def map_trace(scenario, trace):
             out.append("%s.EOp %d (%s)" % (mach, e[0], gallina_op(mach, e[1], e[2], e[3])))
             cout.append("O %d %d %d %d" % ((e[0],) + compact_op(mach, e[1], e[2], e[3])))
     return dict(machine=mach, events=out, cevents=cout, results=results, jn=jn, cjn=cjn, joins=joins, tl=tl, ctl=ctl,
-                reads=reads)
+                reads=reads, slots=seen_slots)
 
 
 def nontrivial(trace):
@@ -560,7 +580,7 @@ def work(args):
     os.remove(p)
     os.rmdir(tmp)
     res = dict(heads=[r for r in rows if "mode" in r], crashes=[], fails=[], bad=[], n_traces=0, n_valid=0,
-               n_nontrivial=0, samples=[], replays=0, vocab=[])
+               n_nontrivial=0, samples=[], replays=0, vocab=[], slots=[])
     if rc != 0:
         res["crashes"].append((rc, (out[-700:] + "\n" + (err or "")[-500:])))
     traces = [r for r in rows if "trace" in r]
@@ -594,6 +614,8 @@ def work(args):
             tbad.add(ti)
             continue
         cls = t["scenario"].split("/")[0]
+        if mt["slots"] is not None and list(mt["slots"]) not in res["slots"]:
+            res["slots"].append(list(mt["slots"]))
         if cls in MACHINE and mt["cevents"]:
             put(mt["machine"], mt["cevents"], (ti, mt, check_lock))
         if mt["cjn"]:
@@ -685,25 +707,25 @@ def main(ck):
     closed, axioms = 0, set()
     files = ["props/Properties_C18.v"]
     if variant is not None:
-        files += ["props/Properties_C18_Source%s.v" % m for m in ("Mx", "Rc", "Sh", "Sl")]
+        files += ["props/Properties_C18_Source%s.v" % m for m in ("Mx", "Rc", "Sh", "Sl", "Tl")]
     for i, f in enumerate(files):
         ck.prove(f, ["model/FiberSyncObs.vo", "gen/FiberSyncSource.vo"] if i == 0 else [])
         pa = ck.cov.get("print_assumptions", {})
         closed += pa.get("closed", 0)
         axioms |= set(pa.get("axioms", []))
     ck.cov["print_assumptions"] = dict(closed=closed, axioms=sorted(axioms))
-    ck.cov["checker_cmd"] = ("cd /verif/coq && make -k -j16 props/Properties_C18.vo props/Properties_C18_Source{Mx,Rc,Sh,Sl}.vo"
+    ck.cov["checker_cmd"] = ("cd /verif/coq && make -k -j16 props/Properties_C18.vo props/Properties_C18_Source{Mx,Rc,Sh,Sl,Tl}.vo"
                              "  (coqc 8.16.1 kernel; every property theorem followed by Print Assumptions; "
                              "gen/FiberSyncSource.v regenerated from the tree under test first)")
     if variant is not None and not all(variant.values()):
-        missing = [k for k in FLAGS if not variant[k]]
+        missing = [k for k in FLAGS + ["tl_one_counter"] if not variant[k]]
         for b_ in ck.broken:
             if "Properties_C18_Source" in b_["name"] or "source_" in b_["name"]:
                 b_["detail"] = ("the tree under test still has the pinned text at: %s\n" % ", ".join(missing)) + b_["detail"]
     # ---- implementation + correspondence
     exe, b = vlib.compile_harness("F", [HARNESS], "c18")
     tot = dict(evaluations=0, scenarios=0, n_traces=0, n_valid=0, n_nontrivial=0, replays=0, failing=0)
-    fails, bad, samples, vocab = {}, [], [], []
+    fails, bad, samples, vocab, slots_seen = {}, [], [], [], []
     exhaustive = True
     for si, (label, mode, extra, names) in enumerate(scenario_sets(ck.tier, ck.seed)):
         results = run_set(exe, mode, extra, names, "%s%d_" % (ck.tier[0], si), do_corr=variant is not None)
@@ -728,6 +750,7 @@ def main(ck):
                 tot[k] += r[k]
             bad += r["bad"]
             vocab += r["vocab"]
+            slots_seen += [x for x in r["slots"] if x not in slots_seen]
             samples += r["samples"]
     for k in sorted(fails, key=lambda k: (ORDER.index(k.split(":")[1]), len(fails[k]["choices"]))):
         t = fails[k]
@@ -751,6 +774,19 @@ def main(ck):
                       "machine and, for tls scenarios, the thread-local machine) and must be accepted with equal results; "
                       "distinct_nontrivial counts validated non-trivial traces")
     ck.cov["samples"] = samples[:4]
+    if variant is not None and slots_seen:
+        # the slot numbers the real proxies got (two int* variables, then a long* one) against the model's numbering
+        ok, out = vlib.coqc_eval(HEADER + "Eval vm_compute in (Tl.slots source_tl_one_counter [0; 0; 1]).\n", "c18_slots_%d" % os.getpid())
+        try:
+            os.remove(os.path.join(vlib.COQ, "cases", "c18_slots_%d.v" % os.getpid()))
+        except OSError:
+            pass
+        m = re.search(r"=\s*\[([\d; ]*)\]", out)
+        predicted = [int(x) for x in re.findall(r"\d+", m.group(1))] if ok and m else None
+        ck.cov["tls_slots"] = dict(observed=slots_seen, model=predicted)
+        if [predicted] != slots_seen:
+            ck.broken.append(dict(name="correspondence FiberSync (Tl.slots) vs implementation on the thread-local scenarios",
+                                  detail="the model numbers the three proxies %s, the implementation %s" % (predicted, slots_seen)))
     for v in vocab[:3]:
         ck.gen_obligation("correspondence FiberSync (trace vocabulary)", False, v)
     for b_ in bad[:8]:
